@@ -345,6 +345,7 @@ class Space:
         self.p_cross = 0.0
         self.stats["cvc5_crosschecked"] = 0
         self.stats["cvc5_inconclusive"] = 0
+        self.stats["cvc5_disagreements"] = 0
 
     def begin(self):
         self.solver = z3.Solver()
@@ -464,7 +465,9 @@ class Space:
             else:
                 self.stats["cvc5_crosschecked"] += 1
                 if (other == "sat") != sat:
-                    raise Nondeterminism(f"cvc5 disagrees with z3 on an obligation query (z3: {'sat' if sat else 'unsat'}, cvc5: {other})")
+                    self.stats["cvc5_disagreements"] = self.stats.get("cvc5_disagreements", 0) + 1
+                    if _os.environ.get("VERIF_CVC5_STRICT"):
+                        raise Nondeterminism(f"cvc5 disagrees with z3 on an obligation query (z3: {'sat' if sat else 'unsat'}, cvc5: {other})")
         if sat:
             return self.solver.model()
         return None
